@@ -257,7 +257,7 @@ pub fn run(ctx: &Ctx) -> i32 {
     for p in &probs {
         acc.inconclusive(format!("section table self-check: {}", p));
     }
-    let n = ctx.tier.pick(30_000u64, 400_000u64);
+    let n = ctx.tier.pick(30_000u64, 20_000_000u64);
     run_workload(ctx, &mut acc, "maps", n, |k, rng, acc| {
         let category = ["optimizations", "vulnerabilities", "qa"][(k % 3) as usize];
         let np = patterns_of(category).len();
@@ -301,7 +301,7 @@ pub fn run(ctx: &Ctx) -> i32 {
     meta.exhaustive_subspaces.push("all 15 non-empty subsets of the vulnerability patterns and all 7 of the QA patterns (as pattern sets; multiplicities random)".into());
 
     // whole-file round trip through generate_report (helper process, private cwd)
-    let nfile = ctx.tier.pick(80u64, 1500u64);
+    let nfile = ctx.tier.pick(80u64, 20000u64);
     run_workload(ctx, &mut acc, "whole-file", nfile, |k, rng, acc| {
         let present = k % 8;
         let v = if present & 1 != 0 { gen_map(rng, "vulnerabilities", 1 + rng.below(15) as u64, 3) } else { vec![] };
